@@ -26,7 +26,7 @@ var c08Causes = []string{
 	"sshd-path-not-a-pipe", "audit-path-not-a-pipe", "sshd-path-missing", "audit-path-missing",
 	"cancel", "invalid-login-pid0",
 }
-var c08Loads = []string{"idle", "mid-traffic", "saturated"}
+var c08Loads = []string{"idle", "mid-traffic", "saturated", "sustained", "other-pipe-without-writer"}
 
 func init() {
 	register(&propDef{
@@ -39,7 +39,7 @@ func init() {
 			"buffer is full; capacities {1,2,8,64,10000}) enumerated within each group of runs, x schedule policy x fault instant; after the fault a fair schedule with the clock advancing at quiescence: " +
 			"RunNamedPipe must return within 5 simulated seconds and 50000 steps, with a non-nil error for failure causes; non-trivial = the fault fired while the daemon was running (and, for saturated, with the buffer full); " +
 			"distinct = distinct (cause, load, capacity, fault instant, schedule hash)",
-		Quick: 42 * 40, Thorough: 42 * 2500,
+		Quick: 70 * 24, Thorough: 70 * 1500,
 	})
 }
 
@@ -83,13 +83,40 @@ func scnC08(rc *RunCtx) {
 	pol := pipelinePolicy(rc)
 
 	k := NewKaudit()
-	sw := sshdPipe.OpenWriter()
-	aw := auditPipe.OpenWriter()
-	rc.Cleanup(func() { sw.Close(); aw.Close() })
+	var sw, aw *simrt.PipeWriter
+	noWriter := "" // which pipe has no writer attached yet (rsyslog / auditd plugin not started)
+	if load == "other-pipe-without-writer" {
+		// the pipe that is not involved in the failure cause has no writer yet
+		noWriter = "sshd"
+		if strings.HasPrefix(cause, "sshd-") || cause == "write-error-userlogin" || cause == "invalid-login-pid0" || cause == "write-error-flush" {
+			noWriter = "audit"
+		}
+		if cause == "write-error-useraction" || cause == "write-error-flush" {
+			noWriter = "" // these causes need both streams
+		}
+	}
+	if noWriter != "sshd" {
+		sw = sshdPipe.OpenWriter()
+	}
+	if noWriter != "audit" {
+		aw = auditPipe.OpenWriter()
+	}
+	rc.Cleanup(func() {
+		if sw != nil {
+			sw.Close()
+		}
+		if aw != nil {
+			aw.Close()
+		}
+	})
+	stopFeed := &doneFlag{}
 	pid := 7000 + t.Choose(100, "pid")
 	login := GenLogin(t, pid, 1)
 	sesOpen := false
 	writeSession := func() {
+		if sw == nil || aw == nil {
+			return
+		}
 		// one correlated session: login line, LOGIN record, an action
 		sw.Write([]byte(login.Line(false)))
 		aw.Write([]byte(k.Login("640", pid, 1000).Lines[0] + "\n"))
@@ -132,6 +159,17 @@ func scnC08(rc *RunCtx) {
 				}
 			}
 			feeder.set(nil)
+			// ... and the stream does not stop afterwards either (sustained load)
+			var more []byte
+			for i := 0; i < 20; i++ {
+				more = append(more, line...)
+			}
+			for i := 0; i < 100000 && !stopFeed.v; i++ {
+				simrt.Point("world.sustained")
+				if _, err := aw.Write(more); err != nil {
+					return
+				}
+			}
 		})
 		saturated := func() bool {
 			for _, l := range rc.Sim.Live() {
@@ -146,8 +184,32 @@ func scnC08(rc *RunCtx) {
 		if saturatedOK {
 			rc.Sim.Count("chan_full_at_fault")
 		}
+	case "sustained":
+		// the audit stream never pauses: a writer keeps the pipe non-empty for the whole run
+		// (also after the fault), the consumer is not starved
+		if !configCause && strings.HasPrefix(cause, "write-error") {
+			writeSession()
+			runToStepOrState(rc, func() bool { return ret.v || (auditPipe.BlockedRead && sshdPipe.BlockedRead) }, -1, 500)
+		}
+		rc.Sim.Spawn("world.audit-sustained", func() {
+			line := []byte(k.UserMsg("USER_START", "4294967295", 999, 0, true, 0).Lines[0] + "\n")
+			for i := 0; i < 200000 && !stopFeed.v; i++ {
+				simrt.Point("world.sustained")
+				if _, err := aw.Write(line); err != nil {
+					return
+				}
+			}
+		})
+		rc.Cleanup(func() { stopFeed.set(nil) })
+		runToStepOrState(rc, func() bool { return ret.v }, 200+t.Choose(400, "warm.steps"), 0)
+		saturatedOK = true
 	default:
-		runToStepOrState(rc, func() bool { return ret.v || (auditPipe.BlockedRead && sshdPipe.BlockedRead) }, t.Choose(60, "idle.steps"), 300)
+		runToStepOrState(rc, func() bool {
+			return ret.v || ((aw == nil || auditPipe.BlockedRead) && (sw == nil || sshdPipe.BlockedRead) && (auditPipe.BlockedOpen || sshdPipe.BlockedOpen || noWriter == ""))
+		}, t.Choose(60, "idle.steps"), 300)
+		if noWriter != "" && (auditPipe.BlockedOpen || sshdPipe.BlockedOpen) {
+			rc.Sim.Count("fault_while_waiting_for_writer")
+		}
 	}
 	runningAtFault := !ret.v
 	// ---- fault ----
@@ -160,6 +222,7 @@ func scnC08(rc *RunCtx) {
 			// EOF is only seen once the pipe is drained: the consumer resumes
 			rc.Sim.Frozen = nil
 		}
+		stopFeed.set(nil) // the writer is gone: nothing feeds the pipe any more
 		aw.Close()
 	case "sshd-pipe-eio":
 		sshdPipe.InjectReadError(syscall.EIO)
@@ -201,9 +264,26 @@ func scnC08(rc *RunCtx) {
 	default:
 		// configuration causes fire at start-up
 	}
+	// traffic does not stop because something failed: another accepted login arrives on the
+	// sshd pipe right after the fault (its hand-off finds a correlator that may be gone)
+	if sw != nil && cause != "sshd-pipe-eof" && t.Choose(2, "post.fault.login") == 1 {
+		sw.Write([]byte(GenLogin(t, pid+7, 9).Line(false)))
+		rc.Sim.Count("c08.login_after_fault")
+	}
 	// ---- settle: fair schedule, clock advances at quiescence only ----
 	rc.Sim.Policy = simrt.PolicyRunToBlock
 	rc.Sim.Frozen = nil
+	if load == "saturated" || load == "sustained" {
+		// under sustained load every task gets its turns (uniformly random schedule) and the
+		// consumer of the line buffer stays the slow side, as it is under real saturation
+		rc.Sim.Policy = simrt.PolicyRandom
+		rc.Sim.Slow = func(name string) int {
+			if strings.Contains(name, "processors/auditd/auditd.go") && strings.Contains(name, ":go#") {
+				return 6
+			}
+			return 1
+		}
+	}
 	t0 := rc.SimNow()
 	steps0 := rc.Sim.Steps
 	returned := false
@@ -225,6 +305,7 @@ func scnC08(rc *RunCtx) {
 		time.Sleep(100 * time.Millisecond)
 	}
 	rc.CaseKey(cause, load, capacity)
+	stopFeed.set(nil)
 	rc.R.NonTrivial = runningAtFault && (load != "saturated" || saturatedOK || configCause)
 	rc.R.Sample = map[string]any{"cause": cause, "load": load, "buffer_capacity": capacity, "policy": pol, "buffer_full_at_fault": saturatedOK,
 		"returned": returned, "error": fmt.Sprint(ret.err), "events_written": len(disk.Writes), "simulated_ms_to_return": (rc.SimNow() - t0).Milliseconds()}
